@@ -343,7 +343,14 @@ def _rule(sc, case):
         for cg in sc.scheme:
             p, w = sc.get_points_and_weights_component_grid(cg.levelvector)
             comp.append((A.fl(cg.coefficient), [[float(c) for c in q] for q in p], [A.fl(x) for x in w]))
-    return dict(points=[[float(c) for c in q] for q in pts], weights=[A.fl(x) for x in wts], comp=comp)
+        stripes = None
+        if case['strat'] == 'dw' and case.get('ggrid', 'trap') == 'trap' and not case.get('modified_basis') and len(pts) <= 700:
+            # the 1D point sets of the CURRENT refinement per component grid: input of the model's published rule (AccumDW.v)
+            stripes = []
+            for cg in sc.scheme:
+                coords, _, _ = sc.get_point_coord_for_each_dim(cg.levelvector)
+                stripes.append([A.fl(cg.coefficient), [[A.fl(x) for x in cd] for cd in coords]])
+    return dict(points=[[float(c) for c in q] for q in pts], weights=[A.fl(x) for x in wts], comp=comp, stripes=stripes)
 
 
 def _has_areas(case):
@@ -378,6 +385,24 @@ def _stop_record(sa, op, case, ret, with_rule):
         rec['ref_sig'] = str([[(float(o.start), float(o.end)) for o in c.get_objects()] for c in sa.refinement.refinementContainers])
     else:
         rec['ref_sig'] = str(sorted((tuple(float(x) for x in o.start), tuple(float(x) for x in o.end)) for o in sa.refinement.get_objects()))
+    if case['strat'] == 'es' and case.get('version', 0) == 0 and case.get('grid', 'trap') == 'trap' and case.get('op', 'int') == 'int' \
+            and len(sa.refinement.get_objects()) <= 16 and (int(sa.lmax[0]) - int(sa.lmin[0]) + 1) ** len(case['a']) <= 27:
+        # input of the model's recomputation (AccumES.es_area_value over the C07 local combination): per area its coarsening value
+        # and the operation applied to EVERY level vector of the box [0, lmax-lmin]^d with a fresh grid and integrand
+        import itertools as _it
+        import numpy as _np
+        f2 = A.make_function(case['comps'])
+        aa = _np.array([float(x) for x in case['a']]); bb = _np.array([float(x) for x in case['b']])
+        g2 = A.make_local_grid(case, aa, bb)
+        span = int(sa.lmax[0]) - int(sa.lmin[0])
+        tabs = []
+        for o in sa.refinement.get_objects():
+            tbl = []
+            for lvv in _it.product(range(span + 1), repeat=len(aa)):
+                val = _np.asarray(g2.integrate(f2, list(lvv), o.start, o.end), dtype=float).ravel()
+                tbl.append([list(lvv), A.vec(val if val.size == len(case['comps']) else _np.zeros(len(case['comps'])) + val.ravel()[0])])
+            tabs.append([op.aid(o), int(o.coarseningValue), tbl])
+        rec['es_model'] = dict(cp=[len(aa), 0, int(sa.lmin[0]), int(sa.lmax[0]), int(sa.lmin[0])], areas=tabs)
     if with_rule:
         # the published rule is asked on the LIVE object at EVERY stop (an answer remembered from an earlier stop would be stale)
         try:
@@ -805,6 +830,8 @@ def run_adaptive_checks(chk, case, r, mjobs):
                               dict(stop=k, why='the array returned at stop(s) %s changed when the run was continued' % st['aliased']))
             if 'rule' in st:
                 check_rule(chk, case, fk, st['rule'], rep, scale, sig, mjobs_late, k)
+            if st.get('es_model') and not recalc_fired:
+                mjobs_late.append(dict(es=st['es_model'], fk=fk, k=k, sig=sig, rep=rep, scale=scale, areas=st['areas']))
             oracle_bad_any = oracle_bad_any or bad_here
             # ---- model: raw replay and driver-step replay
             for j in range(nout):
@@ -984,11 +1011,76 @@ def run_simple_checks(chk, case, r, mjobs):
     return evaluate
 
 
+def finish_model_functions(chk, todo):
+    """the functions of the model states proved equal to the reported value, evaluated through the entry point on what the
+    implementation reports: (sub 3) AccumDW.published_of_stripes on the stripes of every component grid = get_points_and_weights as a
+    multiset of weighted points; (sub 4) AccumES.es_area_value over the C07 local combination of every area = area.value, their
+    sum = the reported value"""
+    jobs, meta = [], []
+    ndw = 0
+    for ev in todo:
+        for item in getattr(ev, 'late', []):
+            if 'es' in item:
+                es = item['es']
+                for j in range(len(item['rep'])):
+                    jobs.append((4, [es['cp'], [[c, [[lv, q(v[j])] for lv, v in tbl]] for _, c, tbl in es['areas']]]))
+                    meta.append(('es', item, j))
+            elif item.get('rule') and item['rule'].get('stripes') and ndw < 150:
+                ndw += 1
+                fk = item['fk']
+                comps = [[q(c), [[sx.rat(Fraction(fk['a'][d])), sx.rat(Fraction(fk['b'][d])), [q(x) for x in xs]] for d, xs in enumerate(dims)]]
+                         for c, dims in item['rule']['stripes']]
+                jobs.append((3, [1 if fk.get('boundary', True) else 0, comps]))
+                meta.append(('dw', item, 0))
+    if not jobs:
+        return
+    res = run_model(5, jobs)
+    for (kind, item, j), m in zip(meta, res):
+        fk, sig, k = item['fk'], item['sig'], item['k']
+        if sx.is_err(m):
+            chk.violation('corr:C05/model-function', 'model-rejects', dict(sig, fn=kind), fk, dict(stop=k, model=str(m)[:200]), failing_input=False)
+            continue
+        if kind == 'dw':
+            mr = sorted((tuple(sx.q(c) for c in p), sx.q(w)) for p, w in m)
+            ir = sorted((tuple(Fraction(c) for c in p), q2f(w)) for p, w in zip(item['rule']['points'], item['rule']['weights']))
+            # points are the same floats on both sides; weights are products of rounded 1D weights in the implementation (exact on dyadic
+            # grids, rounded for chebyshev / non-dyadic boxes): 1e-12 relative
+            same = len(mr) == len(ir) and all(pm == pi and abs(wm - wi) <= Fraction(1, 10 ** 12) * (abs(wm) + Fraction(1, 1000))
+                                              for (pm, wm), (pi, wi) in zip(mr, ir))
+            if not same:
+                chk.violation('corr:C05/model-function', 'published-rule-differs-from-model', sig, fk,
+                              dict(stop=k, model_points=len(mr), impl_points=len(ir),
+                                   first_difference=str(next(((x, y) for x, y in zip(mr, ir) if x != y), None))[:300]), failing_input=not item['ok'])
+            else:
+                chk.count('published rule = AccumDW.published_of_stripes (as a multiset of weighted points)')
+        else:
+            total, vals = m
+            scale = item['scale']
+            if not close(item['rep'][j], sx.q(total), scale[j]):
+                chk.violation('corr:C05/model-function', 'recomputation-by-model-differs', sig, fk,
+                              dict(stop=k, component=j, model=float(sx.q(total)), reported=A.unfl(item['rep'][j])), failing_input=True)
+                continue
+            ids = [i for i, _, _ in item['es']['areas']]
+            av = {i: v for i, v in item['areas']}
+            bad = [i for i, mv in zip(ids, vals) if i not in av or not close(av[i][j], sx.q(mv), scale[j])]
+            if bad:
+                chk.violation('corr:C05/model-function', 'area-result-differs-from-model', sig, fk, dict(stop=k, component=j, areas=bad[:5]), failing_input=False)
+            else:
+                chk.count('reported value and area results = AccumES.es_area_value over the C07 local combinations')
+
+
+def q2f(h):
+    return Fraction(A.unfl(h))
+
+
 def finish_rules(chk, todo):
     """second model pass: combined rule of every recorded rule (sub 2), component 0 .. nout-1"""
     jobs, meta = [], []
+    finish_model_functions(chk, todo)
     for ev in todo:
         for item in getattr(ev, 'late', []):
+            if 'rule' not in item:
+                continue
             rule = item['rule']
             nout = len(item['applied'])
             for j in range(nout):
